@@ -9,8 +9,9 @@ import Thanos.Model.Split
   A response is its matrix (`List (series id × samples)`); headers, warnings, stats and the
   protobuf/JSON encodings are not modelled.  The downstream ("data that does not change") is a
   function of the evaluation timestamp only.  Tenant and query are fixed, so a cache key is
-  `(step, split interval, interval index)`.  The freshness cut-off is not modelled (all compared
-  requests are far in the past, `filterRecentExtents` is the identity there).
+  `(step, split interval, interval index)`.  The freshness cut-off (`maxCacheTime`,
+  `filterRecentExtents`), `shouldCacheResponse` and the loss of cache entries are parameters of
+  the run (`Env`, `Step`).
 
   Two flags select the code before/after the two repairs made for this property:
     `minAll  = false` : `minTime()` looks at the first series only           (as found)
@@ -180,14 +181,26 @@ def mergeExtents (cfg : Cfg) (step : Int) (extents : List Extent) : List Extent 
   | [] => []
   | e :: es => mergeExtentsLoop cfg step e es
 
+/-- what the run-time environment decides for one request: `mct` is
+    `maxCacheTime = now − maxCacheFreshness` (milliseconds), `noStore r` says that
+    `shouldCacheResponse` is false for the response to the (sub-)request `r` (the querier answered
+    with `Cache-Control: no-store`, an `@` modifier points beyond the end / the fresh zone, a
+    negative offset) -/
+structure Env where
+  mct : Int
+  noStore : Req → Bool
+
+/-- everything is old and cacheable -/
+def Env.far : Env := ⟨2 ^ 62, fun _ => false⟩
+
 /-- `handleHit`: the response and, when something was fetched, the extents to write back -/
-def handleHit (cfg : Cfg) (D : Down) (req : Req) (extents : List Extent) (matching : Bool) :
+def handleHit (cfg : Cfg) (env : Env) (D : Down) (req : Req) (extents : List Extent) (matching : Bool) :
     Matrix × Option (List Extent) :=
   let (reqs, cached) := partition cfg req matching extents
   if reqs.isEmpty then (mergeResponse cfg.minAll cached, none) else
   let fetched := reqs.map fun r => (r, evalD D r.start r.stop r.step)
   let responses := cached ++ fetched.map (·.2)
-  let all := extents ++ fetched.map fun (r, m) => ⟨r.start, r.stop, m⟩
+  let all := extents ++ (fetched.filter fun p => !env.noStore p.1).map fun (r, m) => ⟨r.start, r.stop, m⟩
   (mergeResponse cfg.minAll responses, some (mergeExtents cfg req.step all))
 
 /-! ### keys -/
@@ -209,28 +222,49 @@ def cachePut (c : Cache) (k : Key) (v : List Extent) : Cache :=
   | [] => [(k, v)]
   | (k', v') :: rest => if k' = k then (k, v) :: rest else (k', v') :: cachePut rest k v
 
+/-- `filterRecentExtents`: never cache data of the latest freshness period -/
+def filterRecent (env : Env) (step : Int) (extents : List Extent) : List Extent :=
+  let mct' := env.mct.tdiv step * step
+  extents.map fun e => if e.stop > mct' then ⟨e.start, mct', extract e.start mct' 0 e.resp⟩ else e
+
 /-- `resultsCache.Do` for one (sub-)request of a split interval `splitMs` -/
-def doReq (cfg : Cfg) (D : Down) (splitMs : Int) (c : Cache) (req : Req) : Matrix × Cache :=
+def doReq (cfg : Cfg) (env : Env) (D : Down) (splitMs : Int) (c : Cache) (req : Req) : Matrix × Cache :=
+  if req.start > env.mct then (evalD D req.start req.stop req.step, c) else
   let idx := req.start.tdiv splitMs
   let key : Key := ⟨req.step, splitMs, idx⟩
   match cacheGet c key with
   | some extents =>
-    match handleHit cfg D req extents false with
-    | (resp, some ex) => (resp, cachePut c key ex)
+    match handleHit cfg env D req extents false with
+    | (resp, some ex) => (resp, cachePut c key (filterRecent env req.step ex))
     | (resp, none) => (resp, c)
   | none =>
     let alts := (lowerSteps req.step).filter fun s => req.start.tmod s = 0
     match alts.findSome? fun s => cacheGet c ⟨s, splitMs, idx⟩ with
-    | some extents => ((handleHit cfg D req extents true).1, c)        -- writeBack = false
+    | some extents => ((handleHit cfg env D req extents true).1, c)        -- writeBack = false
     | none =>
       let resp := evalD D req.start req.stop req.step
-      (resp, cachePut c key [⟨req.start, req.stop, resp⟩])
+      if env.noStore req then (resp, c)
+      else (resp, cachePut c key (filterRecent env req.step [⟨req.start, req.stop, resp⟩]))
+
+/-- the requests `resultsCache.Do` sends downstream for `req` over cache `c` (what `doReq`
+    evaluates with `evalD`): used by the driver to compare the caching decisions themselves —
+    bypass, partition, lower-step reuse — with the calls the real downstream receives -/
+def downReqs (cfg : Cfg) (env : Env) (splitMs : Int) (c : Cache) (req : Req) : List Req :=
+  if req.start > env.mct then [req] else
+  let idx := req.start.tdiv splitMs
+  match cacheGet c ⟨req.step, splitMs, idx⟩ with
+  | some extents => (partition cfg req false extents).1
+  | none =>
+    let alts := (lowerSteps req.step).filter fun s => req.start.tmod s = 0
+    match alts.findSome? fun s => cacheGet c ⟨s, splitMs, idx⟩ with
+    | some extents => (partition cfg req true extents).1
+    | none => [req]
 
 /-! ### the middleware chain -/
 
 /-- StepAlign (optional) → SplitByInterval → results cache, then MergeResponse of the parts.
     `none` where `splitQuery` would panic (zero step / interval). -/
-def frontend (cfg : Cfg) (D : Down) (align : Bool) (splitMs : Int) (c : Cache) (req : Req) :
+def frontend (cfg : Cfg) (env : Env) (D : Down) (align : Bool) (splitMs : Int) (c : Cache) (req : Req) :
     Option (Matrix × Cache) :=
   if req.step = 0 then none else
   let (s, e) := if align then (req.start.tdiv req.step * req.step, req.stop.tdiv req.step * req.step)
@@ -238,17 +272,29 @@ def frontend (cfg : Cfg) (D : Down) (align : Bool) (splitMs : Int) (c : Cache) (
   match Split.split s e req.step splitMs with
   | .ok parts =>
     let (resps, c') := parts.foldl (fun (acc : List Matrix × Cache) p =>
-      let (m, c'') := doReq cfg D splitMs acc.2 ⟨p.1, p.2, req.step⟩
+      let (m, c'') := doReq cfg env D splitMs acc.2 ⟨p.1, p.2, req.step⟩
       (acc.1 ++ [m], c'')) ([], c)
     some (mergeResponse cfg.minAll resps, c')
   | _ => none
 
-/-- a whole history against one fresh cache: the responses in order -/
-def history (cfg : Cfg) (D : Down) (align : Bool) (splitMs : Int) : Cache → List Req → List (Option Matrix)
+/-- one step of a history: the environment of the moment, whether the cache lost everything
+    before the request (eviction / restart), the request -/
+structure Step where
+  env : Env
+  flush : Bool
+  req : Req
+
+/-- a whole history against one cache: the responses in order -/
+def historyE (cfg : Cfg) (D : Down) (align : Bool) (splitMs : Int) : Cache → List Step → List (Option Matrix)
   | _, [] => []
-  | c, r :: rs =>
-    match frontend cfg D align splitMs c r with
-    | some (m, c') => some m :: history cfg D align splitMs c' rs
-    | none => none :: history cfg D align splitMs c rs
+  | c, s :: rs =>
+    let c0 := if s.flush then [] else c
+    match frontend cfg s.env D align splitMs c0 s.req with
+    | some (m, c') => some m :: historyE cfg D align splitMs c' rs
+    | none => none :: historyE cfg D align splitMs c0 rs
+
+/-- a history of old, cacheable requests over a cache that loses nothing -/
+def history (cfg : Cfg) (D : Down) (align : Bool) (splitMs : Int) (c : Cache) (reqs : List Req) : List (Option Matrix) :=
+  historyE cfg D align splitMs c (reqs.map fun r => ⟨Env.far, false, r⟩)
 
 end Thanos.ResultsCache
